@@ -80,6 +80,7 @@ package match
 
 //@ func (*Matcher).inequal returns using, bss, err
 //@   safety C01
+//@   canon C09
 //@   logical root map[string]interface{}
 //@   logical own map[string]interface{}
 //@   logical mark ref
@@ -141,6 +142,7 @@ package match
 // match: works on the private copy `bindings` (may extend it in place).
 //@ func (*Matcher).match returns bss, err
 //@   safety C01
+//@   canon C09
 //@   logical root map[string]interface{}
 //@   let own = bindings
 //@   let mark = allocmark()
